@@ -289,6 +289,10 @@ def run(ctx) -> Result:
     import redisrun
     res.merge(redisrun.part(ctx, "C01", ['mixed', 'mixed', 'ttl', 'fifo'], crash=0, race=0))
     res.assumptions = list(getattr(res, "assumptions", []) or []) + redisrun.ASSUMPTIONS
+    # RabbitMQ broker: sessions on the real RabbitMessageBroker/_RabbitConsumer (in-process fake AMQP server) vs Rabbit.S
+    import rabbitrun
+    res.merge(rabbitrun.part(ctx, "C01", ['mixed', 'ttl', 'fifo'], specials=['window', 'nackcat']))
+    res.assumptions = list(res.assumptions) + rabbitrun.ASSUMPTIONS
     return res
 
 
